@@ -82,7 +82,8 @@ def cases(draw: T.Any) -> dict:
     inst = {
         'data': draw(st.lists(st.tuples(st.sampled_from(['d1.txt', 'd 2.txt', 'dü.dat']), st.sampled_from(['share/x', 'etc', '/abs/dir']),
                                         st.sampled_from([None, 'runtime', 'devel', 'custom'])), max_size=2, unique_by=lambda x: x[0])),
-        'headers': draw(st.lists(st.tuples(st.sampled_from(['h1.h', 'h2.h']), st.sampled_from([None, 'inc', 'a/b'])), max_size=2, unique_by=lambda x: x[0])),
+        # (file, subdir or None); a subdir starting with '@' stands for install_dir: <rest> (incompatible with subdir:)
+        'headers': draw(st.lists(st.tuples(st.sampled_from(['h1.h', 'h2.h']), st.sampled_from([None, 'inc', 'a/b', '@cust/hdr', '@share/h x'])), max_size=2, unique_by=lambda x: x[0])),
         'man': draw(st.lists(st.sampled_from(['foo.1', 'bar.3']), max_size=2, unique=True)),
         'subdir': draw(st.sampled_from([None, ('tree', 'share/t', None, False), ('tree', 'share/t', 'devel', True)])),
     }
@@ -119,7 +120,7 @@ def extras(c: dict, logdir: str) -> T.Tuple[T.List[str], T.Dict[str, str]]:
         lines.append(f"install_data({q(fn)}, install_dir: {q(d)}" + (f", install_tag: {q(tag)}" if tag else '') + ')')
     for fn, sd in ins['headers']:
         files[fn] = f'/* {fn} */\n'
-        lines.append(f"install_headers({q(fn)}" + (f", subdir: {q(sd)}" if sd else '') + ')')
+        lines.append(f"install_headers({q(fn)}" + ((f", install_dir: {q(sd[1:])}" if sd.startswith('@') else f", subdir: {q(sd)}") if sd else '') + ')')
     for fn in ins['man']:
         files[fn] = f'.TH {fn}\n'
         lines.append(f"install_man({q(fn)})")
@@ -468,7 +469,7 @@ def _shard(shard: T.Tuple[int, int], ev: Evidence, fails: T.List[Failure]) -> No
 
 
 def run(ctx: Ctx) -> None:
-    per = ctx.n(4, 80)
+    per = ctx.n(7, 90)
     pmap(ctx, _shard, [(s, per) for s in shard_seeds(ctx, 16)])
 
 
